@@ -73,7 +73,10 @@ def run_spec(name):
     P.STANDINS["on"] = True
     stats = {"sat": 0, "unsat": 0, "unknown": 0, "solver_s": 0.0, "paths": 0, "branches": 0}
     try:
-        for perm in perms:
+        # every order-preserving permutation; the first one also as a program assembled by hand from the same operations
+        for perm in [perms[0]] + list(perms):
+            hand = perm is perms[0] and not out.get("_hand_done")
+            out["_hand_done"] = True
             E = engine.Engine(max_paths=600)
             E.base = []
 
@@ -81,6 +84,8 @@ def run_spec(name):
                 P.STANDINS["map"].clear()
                 inst = Tm(**{n: P.SNum(T.V("float", zv[n]), float) for n in names})
                 inst._operations = [inst._operations[i] for i in perm]
+                if hand:
+                    inst = _by_hand(inst)
                 return match_template(Tm, inst)
 
             with U.coverage(out["funcs"]):
@@ -121,14 +126,14 @@ def run_spec(name):
                         out.update(result="inconclusive", why="solver %s" % r)
                         continue
                     vals = [T._ratf(mdl.eval(zv[n], model_completion=True)) for n in names]
-                    rr = concrete_check(name, list(perm), vals)
+                    rr = concrete_check(name, list(perm) + (["hand"] if hand else []), vals)
                     if isinstance(rr, dict):
                         rr["symbolic_what"] = desc
                         out.update(result="violation", cex=rr, stats=stats)
                         return out
                     # try a few generic values as well (the model may be degenerate)
                     for alt in ([0.3 + 0.7 * k for k in range(len(names))], [-1.25 + 0.5 * k for k in range(len(names))]):
-                        rr = concrete_check(name, list(perm), alt)
+                        rr = concrete_check(name, list(perm) + (["hand"] if hand else []), alt)
                         if isinstance(rr, dict):
                             rr["symbolic_what"] = desc
                             out.update(result="violation", cex=rr, stats=stats)
@@ -198,7 +203,8 @@ def run_spec(name):
     out["stats"] = stats
     # encoder validation + structural edits, natively
     v = [0.3 + 0.7 * k for k in range(len(names))]
-    for perm in perms[:6]:
+    out.pop("_hand_done", None)
+    for perm in [list(perms[0]) + ["hand"]] + [list(q) for q in perms[:6]]:
         rr = concrete_check(name, list(perm), v)
         out["validated"] = out.get("validated", 0) + 1
         if isinstance(rr, dict):
@@ -260,14 +266,28 @@ def _load(name):
     return blackbird.loads(text_of(name))
 
 
+def _by_hand(inst):
+    """the same program assembled through the API: a new object given the name, version, target and operations"""
+    from blackbird import BlackbirdProgram
+    h = BlackbirdProgram(name=inst.name, version=inst.version)
+    h._target = {"name": inst.target["name"], "options": dict(inst.target["options"])}
+    h._type = {"name": inst.programtype["name"], "options": dict(inst.programtype["options"])}
+    h._operations = list(inst._operations)
+    return h
+
+
 def concrete_check(name, perm, vals):
     from blackbird.utils import match_template, TemplateError
     Tm = _load(name)
     names = sorted(Tm.parameters)
     v = dict(zip(names, vals))
     inst = Tm(**v)
+    hand = "hand" in perm
+    perm = [i for i in perm if i != "hand"]
     inst._operations = [inst._operations[i] for i in perm]
-    base = {"text": text_of(name), "values": [list(perm), vals]}
+    if hand:
+        inst = _by_hand(inst)
+    base = {"text": text_of(name), "values": [list(perm) + (["hand"] if hand else []), vals]}
     try:
         res = match_template(Tm, inst)
     except Exception as e:  # noqa
